@@ -232,11 +232,15 @@ def _make_classes() -> Dict[str, Any]:
             super().__init__(f"r{i}")
             self.rec, self.i, self.j, self.spec = rec, i, j, spec
 
+        def __len__(self) -> int:
+            # results classes with `__len__` are falsy when empty; nothing may depend on that
+            return 1 if mod_truthy(self.spec) else 0
+
         def to_json(self) -> Any:
             self.rec.events.append(["mod", self.i, self.j])
             if self.spec[0] == "raises":
-                raise EXCS[self.spec[1]]("injected module fault")
-            return build_val(self.spec[1])
+                raise EXCS[self.spec[-1]]("injected module fault")
+            return build_val(self.spec[-1])
 
         def add_to_record(self, record: Any) -> None:
             pass
@@ -303,6 +307,25 @@ def build_val(v: List[Any]) -> Any:
     raise ValueError(f"bad value tag {tag}")
 
 
+def mod_truthy(spec: List[Any]) -> bool:
+    """`["mod", truthy, v]` / `["raises", truthy, e]`; the two-element forms are truthy"""
+    return True if len(spec) == 2 else bool(spec[1])
+
+
+def build_raw(spec: List[Any]) -> Any:
+    """`["invalid", raw]`: a value of the wrong type; `["invalid"]` is a non-empty dict"""
+    if len(spec) == 1:
+        return {"left": "over"}
+    tag, arg = spec[1]
+    if tag == "dict":
+        return {f"k{i}": i for i in range(arg)}
+    if tag == "list":
+        return list(range(arg))
+    if tag in ("str", "int", "bool"):
+        return arg
+    raise ValueError(f"bad raw tag {tag}")
+
+
 def val_faulty(v: List[Any]) -> bool:
     tag = v[0]
     if tag == "int":
@@ -330,7 +353,7 @@ def build_results(case_results: Dict[str, Any], rec: _Recorder) -> Any:
             if spec[0] == "none":
                 built[name] = None
             elif spec[0] == "invalid":
-                built[name] = {"left": "over"}
+                built[name] = build_raw(spec)
             else:
                 built[name] = cls["StubModule"](rec, i, j, spec)
         results.append(built)
@@ -411,8 +434,10 @@ def populate(path: str, entries: List[List[Any]]) -> None:
                 handle.write(raw_of(content))
 
 
-def read_back(path: str, before: List[List[Any]], stream: Optional[_Stream]) -> List[List[Any]]:
-    """the listing afterwards: surviving old entries in their old order, then new ones by name"""
+def read_back(path: str, before: List[List[Any]], stream: Optional[_Stream],
+              logname: Optional[str] = None) -> List[List[Any]]:
+    """the listing afterwards: surviving old entries in their old order, then new ones by name;
+    `logname`: the entry the run itself logs to (or into): its text is only known to grow"""
     old = {name: (is_dir, content) for name, is_dir, content in before}
     present = set(os.listdir(path))
     out: List[List[Any]] = []
@@ -422,11 +447,13 @@ def read_back(path: str, before: List[List[Any]], stream: Optional[_Stream]) -> 
         if os.path.isdir(full):
             inner = os.path.join(full, "kept.txt")
             intact = name not in old or (os.path.exists(inner) and open(inner, encoding="utf-8").read() == "inner"
-                                         and os.listdir(full) == ["kept.txt"])
+                                         and (os.listdir(full) == ["kept.txt"] or name == logname))
             return [name, True, [] if intact else [["raw", "<directory damaged>"]]]
         with open(full, encoding="utf-8", errors="replace") as handle:
             text = handle.read()
         prev = raw_of(old[name][1]) if name in old and not old[name][0] else None
+        if name == logname and text != (prev or "") and text.startswith(prev or ""):
+            return [name, False, ([["raw", prev]] if prev else []) + [["raw", "<log>"]]]
         return [name, False, content_tokens(text, prev)]
 
     for name, _, content in before:
@@ -435,7 +462,7 @@ def read_back(path: str, before: List[List[Any]], stream: Optional[_Stream]) -> 
             out.append([name, False, content_tokens(stream.text, raw_of(content))])
         elif name in present:
             out.append(entry(name))
-    for name in sorted(present - set(old)):
+    for name in sorted(present - set(old), key=lambda n: (n != logname, n)):   # logging creates its file first
         out.append(entry(name))
     return out
 
@@ -472,31 +499,52 @@ class C20(Property):
              ("antismash/main.py", "prepare_output_directory"),
              ("antismash/main.py", "_ignore_patterns"),
              ("antismash/main.py", "canonical_base_filename"),
-             ("antismash/main.py", "_run_antismash")]
+             ("antismash/main.py", "_run_antismash"),
+             ("antismash/main.py", "run_antismash"),
+             ("antismash/common/logs.py", "changed_logging"),
+             ("antismash/common/serialiser.py", "AntismashResults.from_file"),
+             ("antismash/main.py", "read_data"),
+             ("antismash/config/args.py", "FullPathAction")]
     RULE = ("systematic fault injection: every (record, module) position of every n x m grid (n,m <= 3 quick, "
-            "<= 4 thorough) x every fault type (to_json raises TypeError/ValueError/KeyError, value of invalid type, "
-            "object without conversion, nested failing conversion, out-of-range integer, record-level failure, "
-            "results list too short, unserialisable timings, no fault) x {write_to_file, dump_records} x handle "
-            "{existing file, missing file, open stream, None}, with bystander files; random multi-fault inputs with "
-            "None entries and nested values; prepare_output_directory on every subset of 9 entry kinds x "
-            "{fresh, reuse, .JSON, .json.bz2} x {directory, missing, plain file} x directory-name forms incl. glob "
-            "metacharacters; _run_antismash (analysis stubbed) on directory x fault-position products; "
-            "non-trivial = a fault with pre-existing target content, a non-empty existing directory, or any pipeline run")
+            "<= 4 thorough) x every fault type (to_json raises TypeError/ValueError/KeyError, raising falsy results "
+            "object, wrong-type value that is a non-empty dict / {} / [] / '' / 0 / False, object without conversion, "
+            "nested failing conversion, out-of-range integer, record-level failure, results list too short, "
+            "unserialisable timings, no fault), every other good results object falsy (__len__ == 0), x "
+            "{write_to_file, dump_records} x handle {existing file, missing file, open stream, None}, with bystander "
+            "files; random multi-fault inputs; prepare_output_directory on every subset of 10 entry kinds (incl. a "
+            "file whose name is a prefix of the log file's) x {fresh, reuse, .JSON, .json.bz2} x {directory, missing, "
+            "plain file} x directory-name forms incl. glob metacharacters; log-name family: entries whose names are "
+            "prefixes/extensions of the log file's name, directories above the log file, 5 spellings of the log path, "
+            "relative arguments and working directories, no log file with the cwd inside the directory; posixpath "
+            "model vs os.path on edge and random strings; derived names (empty --output-dir, --output-basename, "
+            "compressed / hidden / dotted inputs); reuse round trips through a real results file and the real "
+            "read_data (every position x 14 JSON values); run_antismash with the real changed_logging and the real "
+            "command-line parser (log file inside / below / outside the directory) x directory states x results; "
+            "_run_antismash on directory x fault-position products; non-trivial = a fault with pre-existing target "
+            "content, a non-empty existing directory, or any pipeline run")
     TRUSTED = ["POSIX semantics of open(path, 'w') (truncate/create) and of file objects being flushed when dropped "
                "(CPython reference counting) are taken as given",
                "orjson: serialisation order, native types, `default` protocol; only its observable verdict "
                "(bytes or TypeError) is modelled, incl. the 64-bit integer range",
-               "record-level JSON (`record_to_json`, `gather_record_areas`) is exercised but only its failure is modelled",
+               "record-level JSON (`record_to_json`, `gather_record_areas`, `record_from_json`) is exercised but only "
+               "its failure is modelled; `AntismashResults.from_file` is modelled only as 'modules come back as raw JSON'",
                "partial writes after a successful conversion (disk full, interrupted write) are outside the fault model",
-               "not generated: a target path that is a directory, dict keys that are not strings, floats, "
-               "directories named like region GenBank files, running with the cwd inside the output directory, "
-               "an empty output directory name (name derivation by canonical_base_filename is exercised, not modelled)",
-               "`_run_antismash` before `read_data` returns and the bodies of pre_process_sequences / run_detection / "
-               "annotate_records / write_outputs are stubbed in the pipeline cases"]
+               "posixpath (join/normpath/abspath/basename/splitext) is modelled and compared with the real functions; "
+               "symbolic links are not (abspath is lexical, as in the code)",
+               "logging: only the effects of changed_logging inside the output directory are modelled (directory "
+               "creation, the log file created/grown); the log text is a single opaque token",
+               "not generated: a target path that is a directory, dict keys that are not strings, floats, directories "
+               "named like region GenBank files, a log file path that is an existing directory or lies below a plain "
+               "file, an --output-basename containing '/', output directory `name/` where `name` is a plain file",
+               "`_run_antismash` before `read_data` returns (module discovery, prerequisite checks) and the bodies of "
+               "pre_process_sequences / run_detection / annotate_records / write_outputs are stubbed"]
 
     def __init__(self) -> None:
         self._tmp: Optional[tempfile.TemporaryDirectory] = None
         self._n = 0
+        # module-level logging calls install a stderr handler when the root logger has none
+        if not logging.getLogger().handlers:
+            logging.getLogger().addHandler(logging.NullHandler())
         self._config_ready = False
 
     # ------------------------------------------------------------------ scratch space
@@ -523,7 +571,13 @@ class C20(Property):
         ("raise-type", ["raises", "TypeError"]),
         ("raise-value", ["raises", "ValueError"]),
         ("raise-key", ["raises", "KeyError"]),
-        ("invalid", ["invalid"]),
+        ("invalid", ["invalid", ["dict", 2]]),
+        ("invalid-empty-dict", ["invalid", ["dict", 0]]),
+        ("invalid-empty-list", ["invalid", ["list", 0]]),
+        ("invalid-empty-str", ["invalid", ["str", ""]]),
+        ("invalid-zero", ["invalid", ["int", 0]]),
+        ("invalid-false", ["invalid", ["bool", False]]),
+        ("raise-falsy", ["raises", False, "ValueError"]),
         ("opaque", ["mod", ["opaque"]]),
         ("nested", ["mod", ["dict", [["a", ["list", [["int", 1], ["conv", ["dict", [["b", ["dunderraises", "ValueError"]]]]]]]]]]]),
         ("bigint", ["mod", ["list", [["int", MAX64], ["int", MAX64 + 1]]]]),
@@ -556,7 +610,8 @@ class C20(Property):
         for n in range(limit + 1):
             for m in range(limit + 1):
                 def grid() -> List[Any]:
-                    return [[[f"m{j}", ["mod", GOOD]] for j in range(m)] for _ in range(n)]
+                    # every other module's results object is falsy (an "empty" results class)
+                    return [[[f"m{j}", ["mod", (i + j) % 2 == 0, GOOD]] for j in range(m)] for i in range(n)]
                 plans: List[Tuple[List[Any], List[Any], List[Any]]] = [([None] * n, grid(), ["dict", []])]
                 for i in range(n):
                     for j in range(m):
@@ -596,6 +651,11 @@ class C20(Property):
             return ["both", self.rand_val(rng, depth - 1, faulty), self.rand_val(rng, depth - 1, 0.5)]
         return ["seqconv", "GATTACA", self.rand_val(rng, depth - 1, 0.5)]
 
+    @staticmethod
+    def rand_raw(rng: random.Random) -> List[Any]:
+        return rng.choice([["dict", 0], ["dict", 1], ["dict", 3], ["list", 0], ["list", 2], ["str", ""], ["str", "x"],
+                           ["int", 0], ["int", 5], ["bool", False], ["bool", True]])
+
     def rand_write(self, rng: random.Random) -> Dict[str, Any]:
         n = rng.choice([0, 1, 1, 2, 2, 3, 4, 5])
         p_fault = rng.choice([0.0, 0.0, 0.03, 0.1, 0.3])
@@ -610,9 +670,10 @@ class C20(Property):
                 if r < 0.2:
                     spec: List[Any] = ["none"]
                 elif r < 0.2 + p_fault / 2:
-                    spec = rng.choice([["raises", rng.choice(sorted(EXCS))], ["invalid"]])
+                    spec = rng.choice([["raises", rng.random() < 0.7, rng.choice(sorted(EXCS))],
+                                       ["invalid", self.rand_raw(rng)]])
                 else:
-                    spec = ["mod", self.rand_val(rng, rng.choice([0, 1, 2, 3]), p_fault / 2)]
+                    spec = ["mod", rng.random() < 0.7, self.rand_val(rng, rng.choice([0, 1, 2, 3]), p_fault / 2)]
                 mods.append([f"mod{j}", spec])
             results.append(mods)
         timings = ["dict", [[f"r{i}", self.rand_val(rng, 1, p_fault / 3)] for i in range(rng.choice([0, n]))]]
@@ -626,7 +687,7 @@ class C20(Property):
         ("input-dir", "input", True), ("log", "run.log", False), ("stray", "notes.txt", False),
         ("stray-dir", "old_run", True), ("hidden", ".hidden", False), ("region", "rec1.region001.gbk", False),
         ("region2", "c.regionabc.gbk", False), ("near-miss", "rec1.region01.gbk", False),
-        ("json", "base.json", False)]
+        ("json", "base.json", False), ("log-prefix", "run", False)]
     NEAR_NAMES = ["a.region0001.gbk", ".region001.gbk", ".h.region001.gbk", "a.region001.gbk.bak", "aregion001.gbk",
                   "a.region001gbk", "a.region001.GBK", "a.region.1.gbk", "x.region001.gbk.region002.gbk",
                   "..region001.gbk", "a.region00é.gbk", "input.region001.gbk"]
@@ -676,6 +737,168 @@ class C20(Property):
             yield self.prep_case(entries, rng.choice(list(self.MODES)), "dir", rng.choice(DIR_NAMES),
                                  rng.choice([None, "run.log", names[0]]), rng.choice(["plain", "dotted"]))
 
+    def logname_cases(self, rng: random.Random, full: bool) -> Iterator[Dict[str, Any]]:
+        """which entry is "our own log file": names that are prefixes / extensions of the log file's name,
+        directories above the log file, odd spellings of the log path, no log file at all"""
+        def ent(name: str, is_dir: bool) -> List[Any]:
+            return [name, is_dir, [] if is_dir else [["raw", f"content of {name}"]]]
+
+        def case(entries: List[List[Any]], mode: str, logpath: str, **extra: Any) -> Dict[str, Any]:
+            out = {"kind": "prepare", "family": "logname", "target": entries, "input": self.MODES[mode],
+                   "dirname": "out", "logpath": logpath}
+            out.update(extra)
+            return out
+
+        for logname in ("run.log", "antismash.log", "a"):
+            stem = logname.split(".")[0]
+            foreign = [ent(stem, False), ent(stem, True), ent(logname[:-1], False), ent(logname + "2", False),
+                       ent(logname[0], True), ent(logname + ".old", False), ent(logname.upper(), False)]
+            foreign = [e for e in foreign if e[0] and e[0] != logname]
+            for with_log in (True, False):
+                for with_input in (False, True):
+                    base = ([ent(logname, False)] if with_log else []) + ([ent("input", True)] if with_input else [])
+                    for mode in ("fresh", "reuse"):
+                        for spelling in ("{out}/" + logname, "{out}/./" + logname, "{out}//" + logname,
+                                         "{out}/x/../" + logname, "{root}/y/../out/" + logname):
+                            yield case(base, mode, spelling)
+                            for f in foreign:
+                                yield case(base + [f], mode, spelling)
+                                if full:
+                                    yield case([f] + base, mode, spelling)
+                        if full:
+                            for f, g in itertools.combinations(foreign, 2):
+                                if f[0] != g[0]:
+                                    yield case(base + [f, g], mode, "{out}/" + logname)
+        # the log file one or two levels down: the directory above it is a foreign entry
+        for mode in ("fresh", "reuse"):
+            for entries in ([ent("logs", True)], [ent("logs", True), ent("input", True)], [ent("logs", False)], []):
+                yield case(entries, mode, "{out}/logs/run.log")
+                yield case(entries, mode, "{out}/logs/deeper/run.log")
+            # the log file *is* the output directory / lies above it
+            yield case([ent("run.log", False)], mode, "{out}")
+            yield case([ent("run.log", False)], mode, "{root}")
+            yield case([ent("out", True)], mode, "{out}/out")
+        # relative spellings and other working directories
+        for mode in ("fresh", "reuse"):
+            for entries in ([ent("run.log", False)], [ent("run.log", False), ent("run", False)], [ent("run", True)]):
+                yield case(entries, mode, "out/run.log", cwd="{root}")
+                yield case(entries, mode, "out/run.log", cwd="{root}", argform="rel")
+                yield case(entries, mode, "{out}/run.log", cwd="{root}", argform="rel")
+                yield case(entries, mode, "./run.log", cwd="{out}", argform="rel")
+                yield case(entries, mode, "run.log", cwd="{out}")
+        # no log file requested: nothing is exempt, wherever the run is started from
+        for mode in ("fresh", "reuse"):
+            for entries in ([ent("work", True)], [ent("work", True), ent("input", True)], [ent("input", True)], []):
+                yield case(entries, mode, "")
+                if entries and entries[0][0] == "work":
+                    yield case(entries, mode, "", cwd="{out}/work")
+                    yield case(entries, mode, "", cwd="{out}/work", argform="rel")
+                yield case(entries, mode, "", cwd="{root}", argform="rel")
+                if entries:
+                    yield case(entries, mode, "", cwd="{out}", argform="rel")
+
+    # input name -> the base name `canonical_base_filename` derives from it
+    DERIVED = {"genome.gbk": "genome", "genome.fa.gz": "genome", "x.tar.GZ": "x", "base.json": "base",
+               ".hidden": ".hidden", "a.b.c.xz": "a.b", "noext": "noext", "g.bz": "g", "up.GBK.Xz": "up",
+               "dots..gbk": "dots.", "sp ace.fa": "sp ace", "reads.fa.bz": "reads", "gen.gbk.XZ": "gen"}
+
+    def names_cases(self, rng: random.Random, full: bool) -> Iterator[Dict[str, Any]]:
+        """derived names: empty --output-dir, --output-basename, compressed inputs, the results' own name"""
+        def ent(name: str, is_dir: bool) -> List[Any]:
+            return [name, is_dir, [] if is_dir else [["raw", f"content of {name}"]]]
+        for inp, derived in self.DERIVED.items():
+            for basename in ("", "custom"):
+                dirname = basename or derived
+                for target in ("absent", [], [ent("input", True)], [ent("notes.txt", False)],
+                               [ent("a.region001.gbk", False), ent(derived + ".json", False)]):
+                    yield {"kind": "prepare", "family": "names", "target": target, "input": inp, "dirname": dirname,
+                           "logpath": "", "cwd": "{root}", "argform": "empty", "basename": basename}
+                    yield {"kind": "prepare", "family": "names", "target": target, "input": inp, "dirname": "out",
+                           "logpath": "{out}/run.log", "basename": basename}
+                for res_input in ("seq.gbk", "other.fa.gz"):
+                    for argform, dirname in (("empty", basename or derived), ("abs", "out")):
+                        case = {"kind": "pipeline", "family": "names", "target": "absent", "input": inp,
+                                "dirname": dirname, "logpath": "", "cwd": "{root}", "argform": argform,
+                                "basename": basename, "results_input": res_input,
+                                "results": {"records": [None], "results": [[["m0", ["mod", True, GOOD]]]],
+                                            "timings": ["dict", []]}}
+                        yield case
+                        if full:
+                            yield dict(case, results={"records": [None], "results": [[["m0", ["invalid", ["list", 0]]]]],
+                                                      "timings": ["dict", []]},
+                                       target=[ent((basename or derived) + ".json", False)] if inp.endswith(".json") else "absent")
+
+    def reload_cases(self, rng: random.Random, full: bool) -> Iterator[Dict[str, Any]]:
+        """reuse of a real results file whose module results nobody regenerates"""
+        def ent(name: str, is_dir: bool) -> List[Any]:
+            return [name, is_dir, [] if is_dir else [["raw", f"content of {name}"]]]
+        values = [["dict", []], ["list", []], ["str", ""], ["int", 0], ["bool", False], ["none"], GOOD,
+                  ["conv", ["dict", []]], ["dunder", ["none"]], ["list", [["int", 1]]], ["str", "x"], ["bool", True],
+                  ["seq", "ACGT"], ["both", ["dict", []], ["int", 1]]]
+        listings = [[ent("base.json", False)], [ent("base.json", False), ent("rec.region001.gbk", False), ent("notes.txt", False)]]
+        limit = 3 if full else 2
+        for n in range(1, limit + 1):
+            for m in range(1, limit + 1):
+                for i in range(n):
+                    for j in range(m):
+                        for v in values if full else rng.sample(values, 5) + values[:1]:
+                            res = [[[f"m{b}", ["mod", True, ["none"]]] for b in range(m)] for _ in range(n)]
+                            res[i][j] = [f"m{j}", ["mod", rng.random() < 0.5, v]]
+                            yield {"kind": "pipeline", "family": "reload", "reload": True, "target": rng.choice(listings),
+                                   "input": "base.json", "dirname": "out", "logpath": "{out}/run.log",
+                                   "results": {"records": [None] * n, "results": res, "timings": ["dict", []]}}
+        for _ in range(300 if full else 40):
+            n = rng.choice([1, 2, 3])
+            res = [[[f"m{b}", rng.choice([["none"], ["mod", rng.random() < 0.5, rng.choice(values)]])]
+                    for b in range(rng.choice([0, 1, 2, 4]))] for _ in range(n)]
+            yield {"kind": "pipeline", "family": "reload", "reload": True, "target": rng.choice(listings),
+                   "input": "base.json", "dirname": "out", "logpath": "{out}/run.log",
+                   "results": {"records": [None] * n, "results": res, "timings": ["dict", []]}}
+
+    def outer_cases(self, rng: random.Random, full: bool) -> Iterator[Dict[str, Any]]:
+        """`run_antismash` itself: the real `changed_logging` creates / appends to the log file (and the
+        directories above it) before `_run_antismash` looks at the output directory"""
+        def ent(name: str, is_dir: bool) -> List[Any]:
+            return [name, is_dir, [] if is_dir else [["raw", f"content of {name}"]]]
+        good = {"records": [None], "results": [[["m0", ["mod", False, GOOD]]]], "timings": ["dict", []]}
+        bad = {"records": [None, None], "results": [[["m0", ["mod", True, GOOD]]], [["m0", ["raises", True, "ValueError"]]]],
+               "timings": ["dict", []]}
+        stale = {"records": [None], "results": [[["m0", ["mod", True, GOOD]], ["old", ["invalid", ["dict", 0]]]]],
+                 "timings": ["dict", []]}
+        targets: List[Any] = ["absent", [], [ent("run.log", False)], [ent("run.log", False), ent("input", True)],
+                              [ent("run.log", False), ent("notes.txt", False)], [ent("notes.txt", False)],
+                              [ent("run", False), ent("run.log", False)], [ent("run", True)], [ent("logs", True)],
+                              [ent("logs", True), ent("input", True)], [ent("seq.json", False), ent("base.json", False),
+                                                                        ent("r.region001.gbk", False)]]
+        logpaths = ["{out}/run.log", "{out}/./run.log", "{out}/logs/run.log", "{out}/logs/deeper/run.log",
+                    "{root}/elsewhere.log", "{root}/other/dir/elsewhere.log", ""]
+        for target in targets:
+            for logpath in logpaths:
+                for mode in ("fresh", "reuse"):
+                    for results in (good, bad, stale) if full else (good, rng.choice([bad, stale])):
+                        yield {"kind": "pipeline", "family": "outer", "outer": True, "target": target,
+                               "input": self.MODES[mode], "dirname": "out", "logpath": logpath, "results": results}
+        if full:
+            for logpath in ("out/run.log", "./out/logs/x.log"):
+                for target in targets[:6]:
+                    yield {"kind": "pipeline", "family": "outer", "outer": True, "target": target, "input": "seq.gbk",
+                           "dirname": "out", "logpath": logpath, "cwd": "{root}", "argform": "rel", "results": good}
+
+    PATH_EDGE = ["", "/", "//", "///", "////a", "//a", "/a", "a", ".", "..", "./", "../", "a/..", "a/../..", "/..",
+                 "//..", "/a/./b//c/../d/", "a//b", "/a/b/", ".hidden", "..x", "a.", "a.b.c", "/x.d/file", "/x/.rc",
+                 "x.tar.gz", "/a/b.c/", "...", "a/.../b", "run.log", "/tmp/out/run.log", "out/run"]
+
+    def path_cases(self, rng: random.Random, full: bool) -> Iterator[Dict[str, Any]]:
+        for a in self.PATH_EDGE:
+            for b in self.PATH_EDGE if full else rng.sample(self.PATH_EDGE, 6):
+                yield {"kind": "path", "a": a, "b": b}
+        atoms = ["a", "b", "run", "run.log", ".", "..", "", "x.y", ".h", "é"]
+        for _ in range(6000 if full else 600):
+            def rand_path() -> str:
+                lead = rng.choice(["", "", "/", "/", "//", "///"])
+                return lead + "/".join(rng.choice(atoms) for _ in range(rng.choice([0, 1, 2, 3, 5])))
+            yield {"kind": "path", "a": rand_path(), "b": rand_path()}
+
     def pipeline_cases(self, rng: random.Random, full: bool) -> Iterator[Dict[str, Any]]:
         dirs: List[Tuple[Any, str]] = [("absent", "fresh"), ("absent", "reuse"), ("file", "fresh"), ([], "fresh")]
         for chosen in ([], ["input-dir"], ["input-dir", "log"], ["json"], ["json", "region"], ["stray"],
@@ -688,12 +911,13 @@ class C20(Property):
         for n in range(limit + 1):
             for m in range(limit + 1):
                 def grid() -> List[Any]:
-                    return [[[f"m{j}", ["mod", GOOD]] for j in range(m)] for _ in range(n)]
+                    return [[[f"m{j}", ["mod", (i + j) % 2 == 1, GOOD]] for j in range(m)] for i in range(n)]
                 plans.append(([None] * n, grid(), ["dict", []]))
                 for i in range(n):
                     for j in range(m):
                         for label, fault in self.FAULTS:
-                            if full or label in ("raise-type", "raise-value", "opaque"):
+                            if full or label in ("raise-type", "raise-value", "opaque", "invalid-empty-dict",
+                                                 "invalid-zero"):
                                 res = grid()
                                 res[i][j] = [res[i][j][0], fault]
                                 plans.append(([None] * n, res, ["dict", []]))
@@ -714,6 +938,11 @@ class C20(Property):
         for _ in range(20000 if full else 2500):
             yield self.rand_write(rng)
         yield from self.prepare_cases(rng, full)
+        yield from self.logname_cases(rng, full)
+        yield from self.path_cases(rng, full)
+        yield from self.names_cases(rng, full)
+        yield from self.reload_cases(rng, full)
+        yield from self.outer_cases(rng, full)
         yield from self.pipeline_cases(rng, full)
         self.exhaustive_done = True
         self.extra_coverage = {"grid_limit": 4 if full else 3,
@@ -731,9 +960,22 @@ class C20(Property):
                 return self.run_prepare(case, path)
             if kind == "pipeline":
                 return self.run_pipeline(case, path)
+            if kind == "path":
+                return self.run_path(case)
             raise ValueError(f"unknown case kind {kind}")
         finally:
             shutil.rmtree(path, ignore_errors=True)
+
+    @staticmethod
+    def run_path(case: Dict[str, Any]) -> Dict[str, Any]:
+        """the real `posixpath` functions on the strings of the case (`a` doubles as the cwd of abspath)"""
+        import posixpath
+        a, b = case["a"], case["b"]
+        with mock.patch("os.getcwd", return_value=a):
+            absolute = posixpath.abspath(b)
+        return {"impl": {"normpath": posixpath.normpath(a), "join": posixpath.join(a, b), "abspath": absolute,
+                         "basename": posixpath.basename(a), "splitext": list(posixpath.splitext(a)),
+                         "isabs": posixpath.isabs(a)}}
 
     def run_write(self, case: Dict[str, Any], path: str) -> Dict[str, Any]:
         from antismash.common import serialiser
@@ -781,21 +1023,55 @@ class C20(Property):
                 handle.write("decoy")
         return os.path.join(path, dirname), real
 
-    def _logfile(self, case: Dict[str, Any], real: str, path: str) -> str:
-        if case["log"] is None:
-            return os.path.join(path, "elsewhere.log")
-        if case["logform"] == "dotted":
-            return os.path.join(real, ".", case["log"])
-        return os.path.join(real, case["log"])
+    @staticmethod
+    def _paths(case: Dict[str, Any], path: str, real: str) -> Dict[str, Any]:
+        """the strings the run is given: working directory, directory argument, `config.logfile`.
+        `logpath` / `cwd` are templates over {root} (the scratch directory) and {out} (the output
+        directory); without them the older fields `log` / `logform` say where the log file is."""
+        def fill(template: str) -> str:
+            return template.replace("{root}", path).replace("{out}", real)
+        if "logpath" in case:
+            logfile = fill(case["logpath"])
+        elif case.get("log") is None or case.get("logform") == "elsewhere":
+            logfile = os.path.join(path, "elsewhere.log")
+        elif case.get("logform") == "dotted":
+            logfile = os.path.join(real, ".", case["log"])
+        else:
+            logfile = os.path.join(real, case["log"])
+        cwd = fill(case["cwd"]) if case.get("cwd") else None
+        dirname = case["dirname"]
+        if case.get("argform", "abs") == "empty":
+            assert cwd is not None      # the directory is derived: abspath(<prefix of the input name>)
+            arg = ""
+        elif case.get("argform", "abs") == "rel":
+            assert cwd is not None
+            arg = os.path.relpath(real, cwd) + ("/" if dirname.endswith("/") else "")
+        else:
+            arg = os.path.join(path, dirname)
+        return {"cwd": cwd, "name": arg, "logfile": logfile}
 
-    def _observe_target(self, case: Dict[str, Any], real: str, path: str) -> Any:
+    class _Cwd:
+        """`os.chdir` for the duration of one call (only for cases that name a working directory)"""
+        def __init__(self, cwd: Optional[str]) -> None:
+            self.cwd = cwd
+            self.back = os.getcwd()
+
+        def __enter__(self) -> str:
+            if self.cwd is not None:
+                os.chdir(self.cwd)
+            return os.getcwd()
+
+        def __exit__(self, *args: Any) -> None:
+            os.chdir(self.back)
+
+    def _observe_target(self, case: Dict[str, Any], real: str, path: str, logname: Optional[str] = None) -> Any:
         if not os.path.exists(real):
             return "absent"
         if not os.path.isdir(real):
             with open(real, encoding="utf-8") as handle:
                 return "file" if handle.read() == "a plain file" else [["<file changed>", False, []]]
         before = case["target"] if isinstance(case["target"], list) else []
-        listing = read_back(real, before, None)
+        listing = read_back(real, before, None, logname)
         for decoy in ("out1", "result", "qx") if case.get("decoys", True) else ():
             if not os.path.exists(os.path.join(path, decoy, "decoy.region001.gbk")):
                 listing.append([f"../{decoy}/decoy.region001.gbk", False, [["raw", "<deleted>"]]])
@@ -803,19 +1079,21 @@ class C20(Property):
 
     def run_prepare(self, case: Dict[str, Any], path: str) -> Dict[str, Any]:
         from antismash import main
-        arg, real = self._outdir(case, path)
-        logform = case["logform"]
-        log = None if logform == "elsewhere" else case["log"]
-        self.config(logfile=self._logfile(dict(case, log=log), real, path))
+        _, real = self._outdir(case, path)
+        paths = self._paths(case, path, real)
         rec = _Recorder(path, real)
         err = None
-        with _Capture(rec):
-            try:
-                main.prepare_output_directory(arg, os.path.join(path, case["input"]))
-            except Exception as exc:  # pylint: disable=broad-except
-                err = exn_name(exc)
+        with self._Cwd(paths["cwd"]) as cwd:
+            config = self.config(logfile=paths["logfile"], output_basename=case.get("basename", ""))
+            with _Capture(rec):
+                try:
+                    main.prepare_output_directory(paths["name"], os.path.join(path, case["input"]))
+                except Exception as exc:  # pylint: disable=broad-except
+                    err = exn_name(exc)
+            effective = config.output_dir
         return {"trace": self._order_removes(case, rec.events), "err": err,
-                "target": self._observe_target(case, real, path)}
+                "target": self._observe_target(case, real, path),
+                "paths": dict(paths, cwd=cwd, effective=effective)}
 
     @staticmethod
     def _order_removes(case: Dict[str, Any], events: List[Any]) -> List[Any]:
@@ -836,16 +1114,26 @@ class C20(Property):
     def run_pipeline(self, case: Dict[str, Any], path: str) -> Dict[str, Any]:
         from antismash import main
         from antismash.common import record_processing
-        arg, real = self._outdir(case, path)
+        _, real = self._outdir(case, path)
+        paths = self._paths(case, path, real)
         reuse = case["input"].endswith(".json")
         input_path = os.path.join(path, case["input"])
-        options = self.config(logfile=self._logfile(case, real, path), output_dir=arg,
-                              reuse_results=input_path if reuse else "")
         rec = _Recorder(path, real)
         results = build_results(case["results"], rec)
-        results.input_file = "seq.gbk"   # the name the results carry; the base name comes from the input path
+        # the name the results carry; the base name normally comes from the input path
+        results.input_file = case.get("results_input", "seq.gbk")
         for record in results.records:
             record.skip = "skipped by the harness"
+        extra: Dict[str, Any] = {}
+        if case.get("reload"):
+            # a real results file, written by the real code from the stub results, is what gets reused:
+            # `read_data` is the real one, and nothing regenerates the module results it loads
+            input_path = os.path.join(real, "base.json")
+            results.write_to_file(input_path)
+            with open(input_path, encoding="utf-8") as handle:
+                extra = {"initial_json": doc_tokens(handle.read()), "json_name": "base.json"}
+            rec.events.clear()
+            reuse = True
 
         def passthrough(records: Any, *_args: Any, **_kwargs: Any) -> Any:
             return records
@@ -863,24 +1151,59 @@ class C20(Property):
             rec.events.append("prepared")
 
         err = None
-        with mock.patch.object(main, "_log_found_executables", lambda _o: None), \
+        with self._Cwd(paths["cwd"]) as cwd, \
+                mock.patch.object(main, "_log_found_executables", lambda _o: None), \
                 mock.patch.object(main, "get_all_modules", lambda: []), \
                 mock.patch.object(main, "_get_all_enabled_modules", lambda _m, _o: ["stub"]), \
                 mock.patch.object(main, "check_prerequisites", lambda _m, _o: None), \
                 mock.patch.object(main, "verify_options", lambda _o, _m: True), \
-                mock.patch.object(main, "read_data", lambda _s, _o: results), \
+                mock.patch.object(main, "read_data", main.read_data if case.get("reload")
+                                  else (lambda _s, _o: results)), \
+                mock.patch.object(main, "run_detection", lambda _r, _o, _m: {}), \
                 mock.patch.object(record_processing, "pre_process_sequences", passthrough), \
                 mock.patch.object(main, "prepare_output_directory", prepare), \
                 mock.patch.object(main, "annotate_records", annotate), \
                 mock.patch.object(main, "write_outputs", outputs), \
                 _Capture(rec):
+            if case.get("outer"):
+                # the options come from the real command line parser (FullPathAction makes paths absolute)
+                from antismash.config import build_config, destroy_config, update_config
+                argv: List[str] = []
+                if paths["logfile"]:
+                    argv += ["--logfile", paths["logfile"]]
+                if paths["name"]:
+                    argv += ["--output-dir", paths["name"]]
+                if case.get("basename"):
+                    argv += ["--output-basename", case["basename"]]
+                destroy_config()
+                options = build_config(argv, isolated=True, modules=[])
+                update_config({"reuse_results": input_path if reuse else ""})
+                paths = dict(paths, name=options.output_dir, logfile=options.logfile)
+            else:
+                options = self.config(logfile=paths["logfile"], output_dir=paths["name"],
+                                      output_basename=case.get("basename", ""),
+                                      reuse_results=input_path if reuse else "")
             try:
-                main._run_antismash(None if reuse else input_path, options)  # pylint: disable=protected-access
+                if case.get("outer"):
+                    main.run_antismash(None if reuse else input_path, options)
+                else:
+                    main._run_antismash(None if reuse else input_path, options)  # pylint: disable=protected-access
             except Exception as exc:  # pylint: disable=broad-except
                 err = exn_name(exc)
                 exc = None
-        return {"trace": self._order_removes(case, rec.events), "err": err,
-                "target": self._observe_target(case, real, path)}
+        logname = None
+        events = rec.events
+        if case.get("outer"):
+            # the entry of the output directory the run logs to (or into), and the trace without the logging
+            # machinery's own file traffic
+            inside = os.path.relpath(os.path.normpath(os.path.join(cwd, paths["logfile"])), real) \
+                if paths["logfile"] else ".."
+            logname = None if inside.startswith("..") or inside == "." else inside.split(os.sep)[0]
+            events = [e for e in events if not (isinstance(e, list) and e[0] in ("open", "write", "mkdir")
+                                                and (e[1].split(":")[0] == inside or "/" in e[1]))]
+        return {"trace": self._order_removes(case, events), "err": err,
+                "target": self._observe_target(case, real, path, logname),
+                "paths": dict(paths, cwd=cwd, effective=options.output_dir), **extra}
 
     # ------------------------------------------------------------------ driver + verdict
     def driver_line(self, case: Dict[str, Any], obs: Dict[str, Any]) -> Optional[Dict[str, Any]]:
@@ -888,23 +1211,43 @@ class C20(Property):
         if case["kind"] == "write":
             return {"kind": "write", "fn": case["fn"], "handle": case["handle"], "dir": case["dir"],
                     "results": case["results"], "impl": impl}
+        if case["kind"] == "path":
+            return {"kind": "path", "a": case["a"], "b": case["b"]}
+        paths = obs.get("paths") or {"cwd": "/", "name": "/unobserved", "logfile": ""}
         line = {"kind": case["kind"], "target": case["target"], "input": case["input"],
-                "log": None if case["logform"] == "elsewhere" else case["log"], "impl": impl}
+                "cwd": paths["cwd"], "name": paths["name"], "logfile": paths["logfile"],
+                "basename": case.get("basename", ""), "impl": impl}
         if case["kind"] == "pipeline":
             line["results"] = case["results"]
-            line["json"] = case["json"]
+            line["results_input"] = case.get("results_input", "seq.gbk")
+            line["reload"] = bool(case.get("reload"))
+            line["outer"] = bool(case.get("outer"))
+            if case.get("reload") and isinstance(line["target"], list) and "initial_json" in obs:
+                # the reused file holds what the first (real) write put there
+                line["target"] = [[n, d, obs["initial_json"] if n == obs["json_name"] else c]
+                                  for n, d, c in line["target"]]
         return line
 
     def judge(self, case: Dict[str, Any], obs: Dict[str, Any], drv: Optional[Dict[str, Any]]) -> Judgement:
         assert drv is not None
         if "err" in drv and "model" not in drv:
             return Judgement(False, True, detail=f"driver error {drv['err']}")
+        if case["kind"] == "path":
+            same = obs.get("impl") == drv["model"]
+            return Judgement(same, True, tags=("path", "abs" if case["a"].startswith("/") else "rel"),
+                             detail="" if same else f"posixpath model {drv['model']} vs os.path {obs.get('impl')}")
         if "trace" not in obs:
             return Judgement(False, False, detail=f"harness could not observe the run: {obs}")
         model, spec = drv["model"], drv["spec"]
         state = "dir" if case["kind"] == "write" else "target"
         mine = {"trace": canon_trace(obs["trace"]), "err": obs["err"], state: obs[state]}
         theirs = {"trace": canon_trace(model["trace"]), "err": model["err"], state: model[state]}
+        if case.get("argform") == "empty":
+            mine["name"] = obs["paths"].get("effective")
+            theirs["name"] = drv.get("name")
+        if case.get("reload"):
+            # reloaded records are plain `Record`s: their conversions are not observable
+            theirs["trace"] = [e for e in theirs["trace"] if not (isinstance(e, list) and e[0] in ("rec", "mod"))]
         corr = mine == theirs
         spec_ok = bool(spec["impl_ok"])
         detail = ""
@@ -924,7 +1267,7 @@ class C20(Property):
                      "err-" + str(obs["err"])]
             nontrivial = fault and had_old
         elif case["kind"] == "prepare":
-            tags += ["accepts" if spec["accepts"] else "refuses",
+            tags += ["accepts" if spec["accepts"] else "refuses", case.get("family", "subsets"),
                      "target-" + (case["target"] if isinstance(case["target"], str) else "dir"),
                      "reuse" if case["input"].endswith(".json") else "fresh",
                      "removes" if any(isinstance(e, list) and e[0] == "remove" for e in obs["trace"]) else "no-removal"]
@@ -933,7 +1276,8 @@ class C20(Property):
             tags += ["accepts" if spec["accepts"] else "refuses", "fault" if spec["fault"] else "no-fault",
                      "err-" + str(obs["err"])]
             nontrivial = True
-        return Judgement(corr and bool(spec["model_ok"]), spec_ok, in_scope=True, nontrivial=nontrivial,
+        return Judgement(corr and bool(spec["model_ok"]), spec_ok, in_scope=bool(drv.get("scope", True)),
+                         nontrivial=nontrivial,
                          tags=tuple(tags), detail=detail[:1500])
 
     @staticmethod
@@ -964,6 +1308,8 @@ class C20(Property):
             for i, entry in enumerate(case[key]):
                 if case["kind"] == "write" and entry[0] == case["handle"][-1]:
                     continue
+                if "/" + entry[0] in case.get("cwd", "") + "/":
+                    continue    # the run is started from inside this entry
                 yield {**case, key: case[key][:i] + case[key][i + 1:]}
         if case.get("dirname", "out") != "out":
             yield dict(case, dirname="out")
